@@ -196,7 +196,14 @@ type vWorld struct {
 	prepared bool            // current scope started with Prepare
 	wrote    map[string]bool // fields/slots whose value an action changed in this scope ("A1/bal", "A1/k2", ...)
 
+	hotSet   bool // hot slot of this history (vActHotSlotBurst)
+	hotAddr  common.Address
+	hotSlot  common.Hash
+	hotHist  []common.Hash
+	noIRoot  bool // never call IntermediateRoot inside the block (C15)
+
 	// coverage facts
+	mixedBoundaries  int // bit 1: Finalise-only boundary, bit 2: IntermediateRoot boundary after a hot-slot write
 	txs              int
 	deepRevertUndo   bool
 	destructRecreate bool
@@ -948,6 +955,61 @@ func vActDestructRecreate(w *vWorld) {
 	w.after(&a)
 }
 
+// vActHotSlotBurst writes one "hot" slot (drawn once per history) several times in a
+// row from a tiny value pool biased towards values the slot held earlier in the
+// block (A -> B -> A patterns), separating the writes by drawn transaction
+// boundaries of both kinds (Finalise only / IntermediateRoot), so that a slot is
+// repeatedly re-dirtied across mixed boundaries and returns to earlier values.
+func vActHotSlotBurst(w *vWorld) {
+	if !w.hotSet {
+		w.hotAddr = rapid.SampledFrom(vAddrs[:5]).Draw(w.rt, "hotAddr")
+		w.hotSlot = rapid.SampledFrom(vSlots).Draw(w.rt, "hotSlot")
+		w.hotSet = true
+	}
+	a, k := w.hotAddr, w.hotSlot
+	n := rapid.IntRange(2, 5).Draw(w.rt, "burst")
+	for i := 0; i < n; i++ {
+		if w.strict && w.nonceOf(a) == 0 {
+			// storage only lives on accounts with a nonce (EIP-161 era)
+			w.sdb.SetNonce(a, 1, tracing.NonceChangeUnspecified)
+			w.m.SetNonce(ra(a), 1)
+			w.wrote[vShortAddr(a)+"/nonce"] = true
+		}
+		var v common.Hash
+		if len(w.hotHist) > 0 && rapid.Bool().Draw(w.rt, "fromHistory") {
+			v = w.hotHist[rapid.IntRange(0, len(w.hotHist)-1).Draw(w.rt, "histIdx")]
+		} else {
+			v = rapid.SampledFrom(vVals[:3]).Draw(w.rt, "hotVal")
+		}
+		g := w.sdb.SetState(a, k, v)
+		e := w.m.SetState(ra(a), rw(k), rw(v))
+		w.logf("HotSetState %s %s %s", vShortAddr(a), vShortSlot(k), vShortVal(v))
+		if g != common.Hash(e) {
+			w.fail("SetState returned previous value %x, model %x", g, e)
+		}
+		if g != v {
+			w.wrote[vShortAddr(a)+"/"+vShortSlot(k)] = true
+		}
+		w.hotHist = append(w.hotHist, v)
+		if len(w.hotHist) > 4 {
+			w.hotHist = w.hotHist[1:]
+		}
+		w.after(&a)
+		switch b := rapid.IntRange(0, 4).Draw(w.rt, "boundary"); {
+		case b <= 1:
+			w.finalise()
+			w.checkAddr(a)
+			w.beginTx(rapid.IntRange(0, 5).Draw(w.rt, "prepare") != 0)
+			w.mixedBoundaries |= 1
+		case b <= 3 && !w.noIRoot:
+			w.intermediateRoot()
+			w.checkAddr(a)
+			w.beginTx(rapid.IntRange(0, 5).Draw(w.rt, "prepare") != 0)
+			w.mixedBoundaries |= 2
+		}
+	}
+}
+
 func (w *vWorld) snapshot() {
 	id := w.sdb.Snapshot()
 	w.m.Snapshot(id)
@@ -1052,6 +1114,7 @@ var vActions = []vAction{
 	{"Create", 8, vActCreate},
 	{"SelfDestruct", 8, vActSelfDestruct},
 	{"DestructRecreate", 3, vActDestructRecreate},
+	{"HotSlotBurst", 6, vActHotSlotBurst},
 	{"Snapshot", 9, vActSnapshot},
 	{"Revert", 7, vActRevert},
 	{"RipemdTouchRevert", 2, vActRipemdTouchRevert},
